@@ -367,6 +367,7 @@ def run(repo: Repo, ctx, grammar_modules=None, rule_prefix='C01',
     clause_order_rule(repo, ctx, gen, 'C01.R11')
     identifier_field_rule(repo, ctx, gen, gm, 'C01.R12')
     unnamed_object_separator_rule(repo, ctx, gen, 'C01.R13')
+    all_abbreviation_rule(repo, ctx, gen, 'C01.R14')
 
     # ---- R4 (shared with C18) --------------------------------------------------
     from . import c18
@@ -1341,3 +1342,99 @@ def unnamed_object_separator_rule(repo, ctx, gen, rule):
                    sample=f'{kws} + {kind}:{what[:20]}')
     if n < 4:
         raise AnalysisError(f'{rule}: only {n} unnamed DDL object visitors')
+
+
+
+def all_abbreviation_rule(repo: Repo, ctx, gen, rule: str) -> None:
+    """the printer abbreviates a list of kinds to `all` only when the list
+    *is* the whole enumeration.  The guard has to imply set equality: an
+    equality with the enumeration's listing, or an equality of lengths when
+    the list cannot hold duplicates by construction (a comprehension that
+    filters the enumeration, a set).  The grammar accepts a kind more than
+    once (`allow select, select, insert`), so a length test on a list that
+    keeps duplicates prints `all` for a policy that does not allow all."""
+    ctx.floor(rule, 1)
+    n = 0
+    for name, f in sorted(gen.methods.items()):
+        rets = [r for r in ast.walk(f.node) if isinstance(r, ast.Return)
+                and isinstance(r.value, ast.Constant)
+                and r.value.value == 'all']
+        if not rets:
+            continue
+        ctx.saw(f)
+        defs: Dict[str, List[ast.AST]] = {}
+        for st in ast.walk(f.node):
+            if isinstance(st, ast.Assign) and len(st.targets) == 1 and \
+                    isinstance(st.targets[0], ast.Name):
+                defs.setdefault(st.targets[0].id, []).append(st.value)
+
+        def enum_listing(e) -> Optional[str]:
+            # list(E) / tuple(E) / E / [*E] with E an enum reference
+            if isinstance(e, ast.Call) and norm(e.func) in (
+                    'list', 'tuple', 'set', 'frozenset') and len(e.args) == 1:
+                return enum_listing(e.args[0])
+            if isinstance(e, ast.Attribute) and e.attr[:1].isupper():
+                return norm(e)
+            if isinstance(e, ast.Name) and e.id in defs and \
+                    len(defs[e.id]) == 1:
+                return enum_listing(defs[e.id][0])
+            return None
+
+        def no_duplicates(e, depth=3) -> Optional[bool]:
+            if isinstance(e, ast.ListComp) and len(e.generators) == 1:
+                return enum_listing(e.generators[0].iter) is not None
+            if isinstance(e, (ast.Set, ast.SetComp)):
+                return True
+            if isinstance(e, ast.Call):
+                fn = norm(e.func)
+                if fn in ('set', 'frozenset', 'dict.fromkeys'):
+                    return True
+                if fn in ('sorted', 'list', 'tuple', 'reversed') and e.args:
+                    return no_duplicates(e.args[0], depth)
+                return None                     # unknown producer
+            if isinstance(e, ast.Name):
+                if e.id in defs and depth:
+                    rs = [no_duplicates(v, depth - 1) for v in defs[e.id]
+                          if not (isinstance(v, ast.Name) and v.id == e.id)]
+                    if any(r is None for r in rs):
+                        return None
+                    return bool(rs) and all(rs)
+                return False                    # a parameter: as given
+            return None
+        for r in rets:
+            guards = [i for i in ast.walk(f.node) if isinstance(i, ast.If)
+                      and any(r is x for st in i.body for x in ast.walk(st))]
+            if not guards:
+                raise AnalysisError(f"{rule}: {name} returns 'all' "
+                                    f"unconditionally")
+            t = guards[-1].test
+            n += 1
+            verdict: Optional[bool] = None
+            why = norm(t)[:70]
+            if isinstance(t, ast.Compare) and len(t.ops) == 1 and \
+                    isinstance(t.ops[0], ast.Eq):
+                a, b = t.left, t.comparators[0]
+                la = isinstance(a, ast.Call) and norm(a.func) == 'len'
+                lb = isinstance(b, ast.Call) and norm(b.func) == 'len'
+                if la and lb:
+                    ea, eb = enum_listing(a.args[0]), enum_listing(b.args[0])
+                    lst = a.args[0] if ea is None else b.args[0]
+                    if (ea is None) != (eb is None):
+                        verdict = no_duplicates(lst)
+                elif not la and not lb:
+                    if enum_listing(a) is not None or \
+                            enum_listing(b) is not None:
+                        verdict = True
+            if verdict is None:
+                raise AnalysisError(f"{rule}: cannot decide whether the "
+                                    f"guard `{why}` of `return 'all'` in "
+                                    f"{name} implies that every member is "
+                                    f"listed")
+            ctx.ob(rule, f'{name}:all-means-every-member', verdict,
+                   f"{name} prints `all` when `{why}`, a comparison of "
+                   f"lengths on a list that keeps what it was given: a kind "
+                   f"listed twice makes up for one that is missing, and the "
+                   f"text re-parses to a different set of kinds", f.loc,
+                   sample=why)
+    if n < 1:
+        raise AnalysisError(f"{rule}: no `return 'all'` abbreviation found")
